@@ -1257,6 +1257,11 @@ class WebSocketProtocol13(WebSocketProtocol):
                 self.close(1009, "message too big after decompression")
                 self._abort()
                 return None
+            except zlib.error:
+                # The payload is not a valid DEFLATE stream: fail the
+                # connection like any other malformed frame.
+                self._abort()
+                return None
 
         if opcode == 0x1:
             # UTF-8 data
